@@ -38,6 +38,9 @@ type Case struct {
 	Comp wh.Comp  `json:"comp"`
 	Mode string   `json:"mode"` // plain | opt (rediff, partitions 2) | optall (rediff with ForceMapAll)
 	Mask int      `json:"mask"` // whitelist: bit i = new-build file index i
+	// Dense: the whitelist map has an entry for every index (true for members, false for
+	// the others) instead of entries for the members only; both describe the same set.
+	Dense bool `json:"dense,omitempty"`
 }
 
 // kinds of new file in the perm family
@@ -237,16 +240,22 @@ func body(w *runner.W) {
 			return
 		}
 		wl := map[int64]bool{}
+		members := 0 // size of the whitelisted set (wl may also hold explicit false entries)
 		wlPaths := map[string]bool{}
 		allowedOld := map[int64]bool{}
 		skipsBsdiff2049 := false
 		for i := 0; i < nfiles; i++ {
 			if c.Mask&(1<<uint(i)) != 0 {
 				wl[int64(i)] = true
+				members++
 				wlPaths[p.dp.Source.Files[i].Path] = true
 				for t := range p.refs[i] {
 					allowedOld[t] = true
 				}
+			} else if c.Dense {
+				wl[int64(i)] = false
+			}
+			if c.Mask&(1<<uint(i)) != 0 {
 			} else if s := p.dp.Series[i]; s.Bsdiff != nil && s.Bsdiff.TargetIndex == int64(pwr.SyncOp_HEY_YOU_DID_IT) {
 				skipsBsdiff2049 = true
 			}
@@ -264,7 +273,7 @@ func body(w *runner.W) {
 				return
 			}
 		}
-		if len(wl) != 0 && len(wl) != nfiles {
+		if members != 0 && members != nfiles {
 			r.Nontrivial()
 		}
 		r.Trans(p.nops)
@@ -308,8 +317,8 @@ func body(w *runner.W) {
 			return
 		}
 		// 1. touched count
-		if got := pt.GetTouchedFiles(); got != int64(len(wl)) {
-			r.Failf("touched-count", "whitelist %v: GetTouchedFiles = %d, want %d", maskList(c.Mask, nfiles), got, len(wl))
+		if got := pt.GetTouchedFiles(); got != int64(members) {
+			r.Failf("touched-count", "whitelist %v: GetTouchedFiles = %d, want %d", maskList(c.Mask, nfiles), got, members)
 		}
 		// 2. bowl calls, 3. pool accesses
 		writers, transposes, reads := 0, 0, 0
@@ -358,7 +367,7 @@ func body(w *runner.W) {
 				r.Failf("whitelisted-file-differs", "whitelist %v: %s has %d bytes, full application gives %d bytes (or content differs)", maskList(c.Mask, nfiles), rel, len(got), len(want))
 			}
 		}
-		r.Outcome(fmt.Sprintf("%s n=%d writers=%d transposes=%d reads=%v", c.Mode, len(wl), writers, transposes, reads > 0))
+		r.Outcome(fmt.Sprintf("%s n=%d writers=%d transposes=%d reads=%v", c.Mode, members, writers, transposes, reads > 0))
 	}
 
 	comps := []wh.Comp{"none", "gzip-1", "brotli-1"}
@@ -385,7 +394,9 @@ func body(w *runner.W) {
 						continue
 					}
 					for mask := 0; mask < 1<<uint(len(perm)); mask++ {
-						sub.DoOwned(Case{Fam: "perm", Perm: perm, Comp: comp, Mode: mode, Mask: mask})
+						// both descriptions of the same whitelist, alternating so that every mask gets
+						// both across the permutations (and the all-compressions slice runs both for all)
+						sub.DoOwned(Case{Fam: "perm", Perm: perm, Comp: comp, Mode: mode, Mask: mask, Dense: (mask+len(perm[0])+permOrdinal(perm))%2 == 1})
 					}
 				}
 			}
@@ -437,6 +448,7 @@ func body(w *runner.W) {
 					}
 					for mask := 0; mask < 1<<uint(len(perm)); mask++ {
 						ac.DoOwned(Case{Fam: "perm", Perm: perm, Comp: comp, Mode: mode, Mask: mask})
+						ac.DoOwned(Case{Fam: "perm", Perm: perm, Comp: comp, Mode: mode, Mask: mask, Dense: true})
 					}
 				}
 			}
@@ -455,7 +467,7 @@ func body(w *runner.W) {
 					continue
 				}
 				for mask := 0; mask < 32; mask++ {
-					idx.DoOwned(Case{Fam: "idx", Comp: comp, Mode: mode, Mask: mask})
+					idx.DoOwned(Case{Fam: "idx", Comp: comp, Mode: mode, Mask: mask, Dense: mask%2 == 1})
 				}
 			}
 		}
@@ -500,4 +512,15 @@ func permutations(items []string) [][]string {
 	sort.Strings(s)
 	rec(nil, s)
 	return out
+}
+
+// permOrdinal is a cheap deterministic number of a permutation (for alternating options).
+func permOrdinal(perm []string) int {
+	n := 0
+	for i, k := range perm {
+		if len(k) > 0 {
+			n += (i + 1) * int(k[0])
+		}
+	}
+	return n
 }
